@@ -14,7 +14,13 @@ def register(reg):
     contract(reg, f'{T}:TextLinesCursor.is_name_char', P, {'self': 'Cursor', 'c': 'Val'}, ret='bool',
              requires=['c is None or isinstance(c, str)'],
              ensures=[('property', 'result == (c is not None and spec_is_name_char(self, c))')], inline=True)
-    contract(reg, f'{T}:TextLinesCursor.is_name', P, {'self': 'Cursor', 's': 'str'}, ret='bool', verify=False,
+    # "the token is a name" on the character view (C09: an alphanumeric token is guarded).  The code asks for a letter
+    # (or name character) first; the property says alphanumeric: the second clause is the property's reading
+    NC = '(c.isalnum() or c in self.namechars)'
+    contract(reg, f'{T}:TextLinesCursor.is_name#chars', ['C09'], {'self': 'ACursor', 's': 'arrstr'}, ret='bool', modifies=[],
+             ensures=[('property', f'result == (len(s) > 0 and (s[0].isalpha() or s[0] in self.namechars) and all({NC} for c in s[1:]))'),
+                      ('property', f'result == (len(s) > 0 and all({NC} for c in s))')])
+    contract(reg, f'{T}:TextLinesCursor.is_name#rec', P, {'self': 'Cursor', 's': 'str'}, ret='bool', verify=False,
              ensures=['result == uf_is_name(self.input._namechar_set, s)'],
              note='`all(... for c in s[1:])` over characters: the notion "token is a name" is left uninterpreted (bounded check B:C09/is-name)')
     contract(reg, f'{T}:TextLinesCursor.match', P, {'self': 'Cursor', 'token': 'str'}, ret='Val', modifies=['self'],
